@@ -49,31 +49,12 @@ def setKV (hp : Nat → Entry K V) (i : Nat) (k : Option K) (v : Option V) : Nat
 def setVal (hp : Nat → Entry K V) (i : Nat) (v : Option V) : Nat → Entry K V :=
   fun j => if j = i then { hp j with val := v } else hp j
 
-variable [DecidableEq K] (norm : K → K) (hash : K → Nat)
-
-/-- The loop of `lookup` (map.go:31): walk the bucket chain until an entry with `SameAs` key.
-Returns `(entry, hPrev)`.  `fuel` bounds the walk (chains are strictly increasing in allocation index,
-`walk_fuel` in Lemmas shows `n+1` always suffices under `Inv`).  A removed entry inside a chain would make Go
-dereference a nil key; under `Inv` chains only contain live entries, so the case is unreachable. -/
-def walk (heap : Nat → Entry K V) (k : K) : Nat → Option Nat → Option Nat → Option Nat × Option Nat
-  | 0, _, hp => (none, hp)
-  | _ + 1, none, hp => (none, hp)
-  | f + 1, some i, hp =>
-    if (heap i).key = some k then (some i, hp) else walk heap k f (heap i).hNext (some i)
-
-/-- `lookup` (map.go:26-34): `(h, entry, hPrev)`. -/
-def lookup (m : OMap K V) (key : K) : Nat × Option Nat × Option Nat :=
-  let key := norm key                       -- map.go:27-29
-  let h := hash key                         -- map.go:30
-  let r := walk m.heap key (m.n + 1) (m.table h) none
-  (h, r.1, r.2)
-
-/-- `set` (map.go:36-59). -/
-def set (m : OMap K V) (key : K) (value : Option V) : OMap K V :=
-  match lookup norm hash m key with
+/-- Body of `set` after the `lookup` call (map.go:38-58), for a lookup result `r` and the already normalised `key`
+(map.go:41-43).  Shared by the class-keyed model below and the representation-keyed model of Concrete.lean. -/
+def setWith (r : Nat × Option Nat × Option Nat) (m : OMap K V) (key : K) (value : Option V) : OMap K V :=
+  match r with
   | (_, some e, _) => { m with heap := setVal m.heap e value }            -- map.go:38-39
   | (h, none, hPrev) =>
-    let key := norm key                                                   -- map.go:41-43
     let x := m.n                                                          -- the new entry's address
     let heap0 := upd m.heap x { key := some key, val := value }           -- map.go:44
     let heap1 := match hPrev with
@@ -92,19 +73,15 @@ def set (m : OMap K V) (key : K) (value : Option V) : OMap K V :=
       { n := m.n + 1, heap := heap1, table := table, iterFirst := some x,
         iterLast := some x, size := m.size + 1 }
 
-/-- `get` (map.go:61-68): `none` is Go `nil`. -/
-def get (m : OMap K V) (key : K) : Option V :=
-  match lookup norm hash m key with
+/-- Body of `get` after the `lookup` call (map.go:63-67). -/
+def getWith (r : Nat × Option Nat × Option Nat) (m : OMap K V) : Option V :=
+  match r with
   | (_, some e, _) => (m.heap e).val
   | _ => none
 
-/-- `has` (map.go:106-109). -/
-def has (m : OMap K V) (key : K) : Bool :=
-  (lookup norm hash m key).2.1.isSome
-
-/-- `remove` (map.go:70-104). -/
-def remove (m : OMap K V) (key : K) : OMap K V × Bool :=
-  match lookup norm hash m key with
+/-- Body of `remove` after the `lookup` call (map.go:72-103). -/
+def removeWith (r : Nat × Option Nat × Option Nat) (m : OMap K V) : OMap K V × Bool :=
+  match r with
   | (h, some e, hPrev) =>
     let ent := m.heap e
     let heap0 := setKV m.heap e none none                                  -- map.go:73-74
@@ -129,6 +106,41 @@ def remove (m : OMap K V) (key : K) : OMap K V × Bool :=
     ({ n := m.n, heap := heap3, table := table, iterFirst := iterFirst, iterLast := iterLast,
        size := m.size - 1 }, true)                                         -- map.go:99-100
   | (_, none, _) => (m, false)
+
+variable [DecidableEq K] (norm : K → K) (hash : K → Nat)
+
+/-- The loop of `lookup` (map.go:31): walk the bucket chain until an entry with `SameAs` key.
+Returns `(entry, hPrev)`.  `fuel` bounds the walk (chains are strictly increasing in allocation index,
+`walk_fuel` in Lemmas shows `n+1` always suffices under `Inv`).  A removed entry inside a chain would make Go
+dereference a nil key; under `Inv` chains only contain live entries, so the case is unreachable. -/
+def walk (heap : Nat → Entry K V) (k : K) : Nat → Option Nat → Option Nat → Option Nat × Option Nat
+  | 0, _, hp => (none, hp)
+  | _ + 1, none, hp => (none, hp)
+  | f + 1, some i, hp =>
+    if (heap i).key = some k then (some i, hp) else walk heap k f (heap i).hNext (some i)
+
+/-- `lookup` (map.go:26-34): `(h, entry, hPrev)`. -/
+def lookup (m : OMap K V) (key : K) : Nat × Option Nat × Option Nat :=
+  let key := norm key                       -- map.go:27-29
+  let h := hash key                         -- map.go:30
+  let r := walk m.heap key (m.n + 1) (m.table h) none
+  (h, r.1, r.2)
+
+/-- `set` (map.go:36-59). -/
+def set (m : OMap K V) (key : K) (value : Option V) : OMap K V :=
+  setWith (lookup norm hash m key) m (norm key) value
+
+/-- `get` (map.go:61-68): `none` is Go `nil`. -/
+def get (m : OMap K V) (key : K) : Option V :=
+  getWith (lookup norm hash m key) m
+
+/-- `has` (map.go:106-109). -/
+def has (m : OMap K V) (key : K) : Bool :=
+  (lookup norm hash m key).2.1.isSome
+
+/-- `remove` (map.go:70-104). -/
+def remove (m : OMap K V) (key : K) : OMap K V × Bool :=
+  removeWith (lookup norm hash m key) m
 
 /-- Body of the loop of `clear` (map.go:159-163) for `item = i`. -/
 def clearBody (heap : Nat → Entry K V) (i : Nat) : Nat → Entry K V :=
